@@ -1057,7 +1057,10 @@ class Process:
         num_cpus = cpu_count() or 1
 
         def timer():
-            return _timer() * num_cpus
+            # Wall clock only: the number of CPUs may differ between
+            # two calls (CPU hotplug), so it must scale the elapsed
+            # time, not the timestamps kept across calls.
+            return _timer()
 
         if blocking:
             st1 = timer()
@@ -1076,7 +1079,7 @@ class Process:
                 return 0.0
 
         delta_proc = (pt2.user - pt1.user) + (pt2.system - pt1.system)
-        delta_time = st2 - st1
+        delta_time = (st2 - st1) * num_cpus
         # reset values for next call in case of interval == None
         self._last_sys_cpu_times = st2
         self._last_proc_cpu_times = pt2
